@@ -128,6 +128,8 @@ def r2(rr, repo):
         ul = [e for e in p.events if e.kind == 'call' and e.term in ('os.unlink', 'os.remove')]
         if ul:
             nx = [e for e in p.events if e.kind == 'call' and e.term == 'next']
+            if p.facts.get('truthy(self.logfiles)') is False:
+                continue   # an empty list has nothing to iterate: infeasible combination
             rr.ob('on every deleting path the newest file was first taken off the candidate iterator', bool(nx) and p.events.index(nx[0]) < p.events.index(ul[0]), pmod, ul[0].node, witness=p.pc_text()[-200:], key='skip-newest-path')
             if any(kk.startswith('eq(-1, __elem__(') and v is True for kk, v in p.facts.items()):
                 continue   # the enumerate index of a deleted (older) file is >= 1: this combination is infeasible
